@@ -4,6 +4,7 @@ Real code under contract (prqlc/prqlc/src/ir/rq/fold.rs, whole functions):
   fold_expr_kind, fold_switch_case, fold_interpolate_item, fold_interpolate_items, fold_column_sorts, fold_window, fold_compute, fold_transform, fold_transforms,
   fold_table_ref, RqFold::fold_cids (the default method)
   prqlc/prqlc/src/sql/pq/anchor.rs  <CidCollector as RqFold>::fold_cid
+  prqlc/prqlc/src/sql/pq/ast.rs     fold_sql_transform (whole), PqMapper::fold_sql_transforms (the default method; loop by invariant)
 The folder itself is a shim (FoldShim): its overridable methods (fold_expr, fold_cid, fold_cids, fold_compute, fold_table_ref, fold_transform, fold_transforms,
 fold_relation_column) record the node they are handed in a ghost log and return an arbitrary node - the weakest thing an implementor can be assumed to do.
 """
@@ -15,10 +16,11 @@ from extract import ExtractionError
 
 FOLD = "prqlc/prqlc/src/ir/rq/fold.rs"
 ANCHOR = "prqlc/prqlc/src/sql/pq/anchor.rs"
+PQ_AST = "prqlc/prqlc/src/sql/pq/ast.rs"
 
-LABELS = ["FK1", "FK2", "FC1", "FI1", "FI2", "FS1", "FW1", "FP1", "FT1", "FT2", "FTS1", "FR1", "FD1", "CC1"]
+LABELS = ["FK1", "FK2", "FC1", "FI1", "FI2", "FS1", "FW1", "FP1", "FT1", "FT2", "FTS1", "FR1", "FD1", "CC1", "PQ1", "PQ2", "PQS1"]
 FUNCTIONS = ["fold_expr_kind", "fold_switch_case", "fold_interpolate_item", "fold_interpolate_items", "fold_column_sorts", "fold_window", "fold_compute", "fold_transform",
-             "fold_transforms", "fold_table_ref", "fold_cids_default", "fold_cid"]
+             "fold_transforms", "fold_table_ref", "fold_cids_default", "fold_cid", "fold_sql_transform", "fold_sql_transforms_default"]
 RLIMIT = 120
 
 ASSUMED = [
@@ -27,7 +29,7 @@ ASSUMED = [
     {"what": "the folder is generic (`F: ?Sized + RqFold`); it is instantiated with FoldShim, whose methods are external: each records its argument in the ghost visit log "
              "(fold_cids / fold_transforms: every element, in order) and returns an unconstrained node or an error.  A proof for the shim holds for every implementor "
              "whose methods visit what they are given (CidCollector::fold_cid is verified: CC1; CidRedirector, QueryLoader, IdLoader: not verified here)",
-     "keys": ["struct FoldShim", "fn fold_expr", "fn fold_cid", "fn fold_cids", "fn fold_compute", "fn fold_table_ref", "fn fold_transform", "fn fold_transforms", "fn fold_relation_column"]},
+     "keys": ["struct FoldShim", "fn fold_expr", "fn fold_cid", "fn fold_cids", "fn fold_compute", "fn fold_table_ref", "fn fold_transform", "fn fold_transforms", "fn fold_relation_column", "fn fold_rel", "fn fold_super", "fn fold_sql_transform_m", "struct Rel", "struct Sup"]},
     {"what": "Take.range is not folded by fold_transform; it holds literal bounds only (lowering: unit lower_transform LT1), so it has no column to visit", "keys": []},
 ]
 TRUSTED = [
@@ -45,7 +47,9 @@ verus! {
 
 SPEC = r"""
 use rq::*;
-pub enum Visit { Expr(Expr), Cid(CId), Compute(Compute), TableRef(TableRef), Transform(Transform), Col(RelationColumn) }
+#[verifier::external_body] pub struct Rel { _p: u8 }
+#[verifier::external_body] pub struct Sup { _p: u8 }
+pub enum Visit { Expr(Expr), Cid(CId), Compute(Compute), TableRef(TableRef), Transform(Transform), Col(RelationColumn), Rel(Rel), Sup(Sup), Sql(SqlTransform<Rel, Sup>) }
 pub trait Visited: Sized { spec fn visits(self) -> Seq<Visit>; }
 impl Visited for Expr { open spec fn visits(self) -> Seq<Visit> { seq![Visit::Expr(self)] } }
 impl Visited for CId { open spec fn visits(self) -> Seq<Visit> { seq![Visit::Cid(self)] } }
@@ -53,6 +57,7 @@ impl Visited for Transform { open spec fn visits(self) -> Seq<Visit> { seq![Visi
 impl Visited for SwitchCase { open spec fn visits(self) -> Seq<Visit> { seq![Visit::Expr(self.condition), Visit::Expr(self.value)] } }
 impl Visited for InterpolateItem { open spec fn visits(self) -> Seq<Visit> { match self { generic::InterpolateItem::String(_) => Seq::empty(), generic::InterpolateItem::Expr { expr, .. } => seq![Visit::Expr(*expr)] } } }
 impl Visited for ColumnSort<CId> { open spec fn visits(self) -> Seq<Visit> { seq![Visit::Cid(self.column)] } }
+impl Visited for SqlTransform<Rel, Sup> { open spec fn visits(self) -> Seq<Visit> { seq![Visit::Sql(self)] } }
 impl Visited for (RelationColumn, CId) { open spec fn visits(self) -> Seq<Visit> { seq![Visit::Col(self.0), Visit::Cid(self.1)] } }
 pub open spec fn flat<T: Visited>(s: Seq<T>) -> Seq<Visit> decreases s.len() { if s.len() == 0 { Seq::empty() } else { flat(s.drop_last()) + s.last().visits() } }
 pub proof fn lemma_flat_step<T: Visited>(s: Seq<T>, i: int) requires 0 <= i < s.len(), ensures flat(s.take(i + 1)) =~= flat(s.take(i)) + s[i].visits(),
@@ -86,6 +91,40 @@ pub open spec fn transform_visits(t: Transform) -> Seq<Visit> {
         Transform::Join { side, with, filter } => seq![Visit::TableRef(with), Visit::Expr(filter)],
         Transform::Append(r) => seq![Visit::TableRef(r)],
         Transform::Loop(ts) => flat(ts@),
+    }
+}
+pub open spec fn sql_transform_visits(t: SqlTransform<Rel, Sup>) -> Seq<Visit> {
+    match t {
+        SqlTransform::Super(s) => seq![Visit::Sup(s)],
+        SqlTransform::From(r) => seq![Visit::Rel(r)],
+        SqlTransform::Select(ids) => flat(ids@),
+        SqlTransform::Filter(e) => seq![Visit::Expr(e)],
+        SqlTransform::Aggregate { partition, compute } => flat(partition@) + flat(compute@),
+        SqlTransform::Sort(sorts) => flat(sorts@),
+        SqlTransform::Take(take) => flat(take.partition@) + flat(take.sort@),
+        SqlTransform::Join { side, with, filter } => seq![Visit::Rel(with), Visit::Expr(filter)],
+        SqlTransform::Distinct => Seq::empty(),
+        SqlTransform::DistinctOn(ids) => flat(ids@),
+        SqlTransform::Except { bottom, distinct } => seq![Visit::Rel(bottom)],
+        SqlTransform::Intersect { bottom, distinct } => seq![Visit::Rel(bottom)],
+        SqlTransform::Union { bottom, distinct } => seq![Visit::Rel(bottom)],
+    }
+}
+pub open spec fn same_sql_transform(a: SqlTransform<Rel, Sup>, b: SqlTransform<Rel, Sup>) -> bool {
+    match a {
+        SqlTransform::Super(_) => b is Super,
+        SqlTransform::From(_) => b is From,
+        SqlTransform::Select(_) => b is Select,
+        SqlTransform::Filter(_) => b is Filter,
+        SqlTransform::Aggregate { .. } => b is Aggregate,
+        SqlTransform::Sort(_) => b is Sort,
+        SqlTransform::Take(t) => b is Take && b->Take_0.range == t.range,
+        SqlTransform::Join { side, with, filter } => b is Join && b->Join_side == side,
+        SqlTransform::Distinct => b is Distinct,
+        SqlTransform::DistinctOn(_) => b is DistinctOn,
+        SqlTransform::Except { bottom, distinct } => b is Except && b->Except_distinct == distinct,
+        SqlTransform::Intersect { bottom, distinct } => b is Intersect && b->Intersect_distinct == distinct,
+        SqlTransform::Union { bottom, distinct } => b is Union && b->Union_distinct == distinct,
     }
 }
 // the parts of a node that a fold leaves alone
@@ -125,6 +164,9 @@ impl FoldShim {
     #[verifier::external_body] pub fn fold_transform(&mut self, t: Transform) -> (r: Result<Transform, Error>) ensures r is Ok ==> final(self).log@ == old(self).log@.push(Visit::Transform(t)), { unimplemented!() }
     #[verifier::external_body] pub fn fold_transforms(&mut self, v: Vec<Transform>) -> (r: Result<Vec<Transform>, Error>) ensures r is Ok ==> final(self).log@ == old(self).log@ + flat(v@), { unimplemented!() }
     #[verifier::external_body] pub fn fold_relation_column(&mut self, c: RelationColumn) -> (r: Result<RelationColumn, Error>) ensures r is Ok ==> final(self).log@ == old(self).log@.push(Visit::Col(c)), { unimplemented!() }
+    #[verifier::external_body] pub fn fold_rel(&mut self, x: Rel) -> (r: Result<Rel, Error>) ensures r is Ok ==> final(self).log@ == old(self).log@.push(Visit::Rel(x)), { unimplemented!() }
+    #[verifier::external_body] pub fn fold_super(&mut self, x: Sup) -> (r: Result<Sup, Error>) ensures r is Ok ==> final(self).log@ == old(self).log@.push(Visit::Sup(x)), { unimplemented!() }
+    #[verifier::external_body] pub fn fold_sql_transform_m(&mut self, t: SqlTransform<Rel, Sup>) -> (r: Result<SqlTransform<Rel, Sup>, Error>) ensures r is Ok ==> final(self).log@ == old(self).log@.push(Visit::Sql(t)), { unimplemented!() }
 }
 """
 
@@ -218,8 +260,37 @@ def build(X):
             // the collector records every column id it is handed, and hands it back unchanged
             final(self).cids@ == old(self).cids@.push(cid) && r == Ok::<CId, Error>(cid), // @CC1
     """)
-    body = "\n".join(f.text for f in out) + "\n" + cc_t.text + "\nimpl CidCollector {\n" + cc.text + "\n}\n"
-    return (PRELUDE + types + SPEC + body + "\nimpl FoldShim {\n" + fc.text + "\n}\n} // verus!\nfn main() {}\n")
+    # ---- the PQ fold: SqlTransform (pq/ast.rs)
+    sqt = X.type_item(PQ_AST, "enum", "SqlTransform").drop_attrs()
+    sqt.rewrite_re("R6", r"pub enum SqlTransform<Rel = RIId, Super = rq::Transform>", "pub enum SqlTransform<Rel, Super>", count=1, why="default type parameters dropped (instantiated below)")
+    sqt.rewrite_re("R6", r"\brq::", "", count=None, why="module path in the generated file")
+    fst = X.fn(PQ_AST, "fold_sql_transform", after="pub fn fold_sql_transform<").pub_all().drop_logging()
+    fst.rewrite_re("R4", r"pub fn fold_sql_transform<\s*RelIn,\s*RelOut,\s*SuperIn,\s*SuperOut,\s*F: \?Sized \+ PqMapper<RelIn, RelOut, SuperIn, SuperOut>,\s*>\(\s*fold: &mut F,\s*transform: SqlTransform<RelIn, SuperIn>,\s*\) -> Result<SqlTransform<RelOut, SuperOut>> \{",
+                   "pub fn fold_sql_transform(fold: &mut FoldShim, transform: SqlTransform<Rel, Sup>) -> Result<SqlTransform<Rel, Sup>, Error> {", count=1,
+                   why="the generic mapper instantiated with the shim (RelIn = RelOut = Rel, SuperIn = SuperOut = Sup)")
+    fst.rewrite_re("R6", r"\brq::Take\b", "Take", count=None, why="module path")
+    fst.ret_name("r")
+    fst.contract("""
+        ensures
+            r is Ok ==> final(fold).log@ =~= old(fold).log@ + sql_transform_visits(transform), // @PQ1
+            // the transform keeps its kind; join side, take range and set quantifiers are untouched
+            r is Ok ==> same_sql_transform(transform, r->Ok_0), // @PQ2
+    """)
+    fsts = X.fn(PQ_AST, "fold_sql_transforms")
+    fsts.rewrite("R6", "fn fold_sql_transforms(", "pub fn fold_sql_transforms_default(", why="default method of the trait, verified against the shim")
+    fsts.rewrite_re("R6", r"transforms: Vec<SqlTransform<RelIn, SuperIn>>,\s*\) -> Result<Vec<SqlTransform<RelOut, SuperOut>>> \{", "transforms: Vec<SqlTransform<Rel, Sup>>) -> Result<Vec<SqlTransform<Rel, Sup>>, Error> {", count=1,
+                    why="type parameters instantiated; Result alias")
+    fsts.rewrite_re("R6", r"self\.fold_sql_transform\(", "self.fold_sql_transform_m(", count=None, why="the trait method (shim)")
+    _loops(fsts, recv="self")
+    fsts.name = "fold_sql_transforms_default"
+    fsts.ret_name("r")
+    fsts.contract("""
+        ensures r is Ok ==> final(self).log@ =~= old(self).log@ + flat(transforms@), // @PQS1
+    """)
+    out_pq = fst.text
+    body = "\n".join(f.text for f in out) + "\n" + out_pq + "\n" + cc_t.text + "\nimpl CidCollector {\n" + cc.text + "\n}\n"
+    spec = SPEC.replace("use rq::*;", "use rq::*;\n" + sqt.text)
+    return (PRELUDE + types + spec + body + "\nimpl FoldShim {\n" + fc.text + "\n" + fsts.text + "\n}\n} // verus!\nfn main() {}\n")
 
 
 # ----------------------------------------------------------------------------- replay on the real compiler
